@@ -77,6 +77,10 @@ def make_case(index, rng, tier):
             big = rng.randrange(nfields)
             name = b"X-B:"
             fields[big] = name + b" " + b"v" * (want - len(name) - 1)
+        elif dim == "size" and S == 0 and nfields > 0 and "limit_request_field_size" in cfgd:
+            # 0 is documented as 'unlimited header field sizes': a field far beyond the default size
+            big = rng.randrange(nfields)
+            fields[big] = b"X-B: " + b"v" * rng.choice([9000, 20000, 40000, 70000])
         return {"family": "limits", "cfg": cfgd, "line_len": line_len, "fields": [f.decode() for f in fields],
                 "seg": rng.choice(["max", "k", "bytes1", "small"]), "body": rng.choice(["", "x" * 3000, "x" * 20000])}
     state = rng.choice(STATES)
@@ -157,7 +161,13 @@ def run(case, choices):
                 res.violate("C12:limit-not-enforced:" + dim, "request over the limit (%s) reached the consumer; %s" % (why[0], ctx))
         elif must_accept:
             res.probes["within_limits"] += 1
-            if not obs or obs[0]["body"] != body:
+            if (not obs or obs[0]["body"] != body) and S == 0 and "limit_request_field_size" in cfgd and any(len(f) > 8190 for f in fields) \
+                    and term[:2] == ("reject", "LimitRequestHeaders"):
+                res.violate("C12:unlimited-field-size-capped",
+                            "limit_request_field_size=0 is documented as unlimited, yet a request whose only oversized item is one %d-byte field "
+                            "is rejected (%r): the header buffer is still capped at limit_request_fields * 8192 + 4 bytes; %s"
+                            % (max(len(f) for f in fields), term[:2], ctx))
+            elif not obs or obs[0]["body"] != body:
                 res.violate("C12:rejected-within-limits:%s" % "/".join(map(str, term[:2])),
                             "request within all limits was not served (terminal %r); %s" % (term, ctx))
         else:
